@@ -130,6 +130,28 @@ def failing_integrator(rhs, y0, jacobian=None):
     return _FAIL_CLS(rhs, y0, jacobian)
 
 
+_LATE = {"n": 0}
+_LATE_CLS = None
+
+
+def late_failing_integrator(rhs, y0, jacobian=None):
+    """The default integrator for the first integration request of a row, failure for every later one: a row that
+    integrates its first protocol step and fails in a later step (the worker resets the count per row)."""
+    global _LATE_CLS
+    if _LATE_CLS is None:
+        from mxlpy.integrators import DefaultIntegrator
+        from mxlpy.types import IntegrationFailure, Result
+
+        class Late(DefaultIntegrator):
+            # (the default integrator's integrate() goes through integrate_time_course(): one count per request)
+            def integrate_time_course(self, *, time_points):
+                _LATE["n"] += 1
+                return Result(IntegrationFailure()) if _LATE["n"] > 1 else super().integrate_time_course(time_points=time_points)
+
+        _LATE_CLS = Late
+    return _LATE_CLS(rhs, y0, jacobian)
+
+
 # ---- tables ---------------------------------------------------------------------------------------
 def row_values(sc: dict, i: int) -> dict:
     """Values the table holds for row i (1-based): the specification's values for the scanned columns plus the
@@ -141,6 +163,8 @@ def row_values(sc: dict, i: int) -> dict:
         vals["g"] = 0.0 if failing else 1.0
     elif fm == "intfail":
         vals["a"] = 1.0 if failing else 0.0
+    elif fm == "latestep":
+        vals["a"] = 2.0 if failing else 0.0
     elif fm == "nosteady":
         if failing:
             vals["k"] = 0.0
@@ -242,12 +266,23 @@ def kit_worker(model, *args, _kit: dict, **kw):
     mod, fn = KIND_FN[_kit["kind"]]
     default = inspect.signature(getattr(importlib.import_module(mod), fn)).parameters["worker"].default
     raw = model.get_raw_parameters(as_copy=False)
-    if _kit["a"] in raw and raw[_kit["a"]].value != 0.0:
+    if _kit["a"] in raw and raw[_kit["a"]].value == 2.0:
+        _LATE["n"] = 0
+        kw["integrator"] = late_failing_integrator
+    elif _kit["a"] in raw and raw[_kit["a"]].value != 0.0:
         kw["integrator"] = failing_integrator
     try:
         return default(model, *args, **kw)
     finally:
         _log(_kit["log"], {"e": "end", "i": i, "pid": os.getpid(), "t": time.monotonic_ns()})
+
+
+def pre_evaluated(sc: dict) -> bool:
+    """Half of the configurations (a fixed function of the configuration) hand the scan a model that was evaluated
+    before; the specification is silent about it: both must behave alike."""
+    import zlib
+
+    return zlib.crc32(json.dumps([sc["cfg"], sc.get("dur")], sort_keys=True).encode()) % 2 == 0
 
 
 def run_scan(sc: dict, log: str):
@@ -268,6 +303,10 @@ def run_scan(sc: dict, log: str):
     kit = {"a": real(scheme, "a"), "rows": rows, "log": log, "par": par, "wave": min(w, n), "dur": sc.get("dur") or [0] * n, "kind": kind}
     worker = partial(kit_worker, _kit=kit)
     model = build_model(cfg["variant"], scheme)
+    if pre_evaluated(sc):
+        # rendering choice: the caller inspected the model before the scan (its internal cache is already built)
+        model.get_initial_conditions()
+        model.get_args()
     tab = table(sc)
     kw: dict = {"worker": worker}
     if y0_of(sc) is not None:
@@ -319,6 +358,9 @@ def independent(sc: dict, i: int, inner: float | None = None) -> dict:
     if inner is not None:
         m.update_parameters({real(scheme, "k_in"): inner})
     integ = failing_integrator if vals.get("a", 0.0) != 0.0 else None
+    if vals.get("a", 0.0) == 2.0:
+        _LATE["n"] = 0
+        integ = late_failing_integrator
     try:
         s = Simulator(m, integrator=integ)
         if kind in ("steady_state", "mc.steady_state", "mc.scan_steady_state"):
